@@ -51,7 +51,8 @@ class TagObserver:
 class C20(EngineACheck):
     PROPERTY = "C20"
     RULE = (
-        "generated programs incl. failures, duplicates, apply_tags, prov=False / no_prov subtrees, "
+        "generated programs incl. failures, duplicates (one program in three is a family of "
+        "mostly failing twin calls), apply_tags, prov=False / no_prov subtrees, "
         "run 1-2 times on one backend (second run = cached replay) under seeded schedules; after "
         "each execution the whole database is compared with the harness's own record of the job "
         "tree; a case is (program, schedule signatures); non-trivial = two jobs in flight at once"
@@ -70,7 +71,16 @@ class C20(EngineACheck):
                           {"tags": [("kt", 9)]}],
             p_task_option=0.25, limit_names=("r1",), p_limit=0.15,
         )
-        prog = Gen(ch, cfg).generate()
+        if ch.choice(3, "program-family") == 2:
+            # twins of a few leaf calls (many of them failing) reached directly, through delay
+            # chains and through wrappers: collapsed, CSE-served and failed twins must share one
+            # call node
+            from checks.c06 import gen_twin_program
+
+            prog = gen_twin_program(ch, p_raise=0.6)
+            out.probe("twin_family_programs")
+        else:
+            prog = Gen(ch, cfg).generate()
         db = schedsim.fresh_db("run.db")
         nexec = 1 + ch.choice(2, "nexec")
         sess = enginea.ProgramSession(prog)
